@@ -53,6 +53,8 @@ def render(h, variant):
         if m == 'hm2':
             if imp == 'from':
                 out.append('from hm1 import ' + ', '.join('K%d' % i for i in range(1, n + 1) if mod_of[i] == 'hm1'))
+            elif imp == 'fromas':
+                out.append('from hm1 import ' + ', '.join('K%d as A%d' % (i, i) for i in range(1, n + 1) if mod_of[i] == 'hm1'))
             elif imp == 'star':
                 out.append('from hm1 import *')
             else:
@@ -62,6 +64,8 @@ def render(h, variant):
                 continue
 
             def base_expr(b, m=m):
+                if mod_of[b] != m and imp == 'fromas':
+                    return 'A%d' % b
                 if mod_of[b] == m or imp in ('from', 'star'):
                     return 'K%d' % b
                 return 'hm1.K%d' % b
@@ -148,6 +152,9 @@ def main():
             if how == 'from':
                 pre = 'from %s import K%d\n' % (m, i)
                 k = 'K%d' % i
+            elif how == 'fromas':
+                pre = 'from %s import K%d as Q\n' % (m, i)
+                k = 'Q'
             elif how == 'star':
                 pre = 'from %s import *\n' % m
                 k = 'K%d' % i
